@@ -346,7 +346,7 @@ Proof.
            apply schedule_shape; exact Hd.
       * cbn [fst snd]. shape_leaf.
     + unfold next_providers. destruct (is_done s).
-      * destruct (provs s); unfold finish; cbn [fst snd]; shape_leaf.
+      * destruct (c_kprov c ++ provs s); unfold finish; cbn [fst snd]; shape_leaf.
       * destruct (N.of_nat (length (pend s)) =? c_alpha c); [cbn [fst snd]; shape_leaf |].
         apply schedule_shape; exact Hd.
 Qed.
@@ -538,7 +538,7 @@ Record ginv (c : cfg) (s : state) (g : ghost) : Prop := mkGinv {
   gi_known : forall p, In p (g_known g) ->
              p = c_local c \/ In p (map snd (cands s)) \/ In p (map fst (pend s)) \/ In p (queried s);
   gi_got : g_got g = g_emitted g ++ recq s;
-  gi_found : c_kind c = KRecord -> found s = c_known c + N.of_nat (length (g_got g));
+  gi_found : c_kind c = KRecord -> found s = N.of_nat (length (g_got g));
   gi_got_ans : forall x, In x (g_got g) -> In (fst x) (g_answered g);
   gi_got_nodup : NoDup (map fst (g_got g));
   gi_provs : c_kind c = KProviders -> provs s = g_provs g;
@@ -715,7 +715,7 @@ Proof.
   - lia.
   - intros p Hp. right. left. apply fold_cins_known; [exact Hinj | intros x [] | left; exact Hp].
   - reflexivity.
-  - intros ->. lia.
+  - intros _. lia.
   - intros x [].
   - constructor.
   - reflexivity.
@@ -954,7 +954,7 @@ Proof.
       destruct (N.eqb_spec (N.of_nat (length (pend s))) (c_alpha c)) as [E | E];
         [cbn [snd]; discriminate | intros _; exact E].
   - unfold next_providers. destruct (is_done s).
-    + destruct (provs s); unfold finish; cbn [snd]; discriminate.
+    + destruct (c_kprov c ++ provs s); unfold finish; cbn [snd]; discriminate.
     + destruct (N.eqb_spec (N.of_nat (length (pend s))) (c_alpha c)) as [E | E];
         [cbn [snd]; discriminate | intros _; exact E].
 Qed.
@@ -1030,7 +1030,7 @@ Proof.
       cbn [length]. destruct (N.eqb_spec (N.of_nat 0) (c_alpha c)) as [E | E]; [lia |].
       unfold schedule. rewrite Ec. cbn [snd]. discriminate.
   - unfold next_providers, is_done. rewrite Hp. destruct (cands s) as [| [cd cp] ct] eqn:Ec.
-    + destruct (provs s); unfold finish; cbn [snd]; discriminate.
+    + destruct (c_kprov c ++ provs s); unfold finish; cbn [snd]; discriminate.
     + cbn [length]. destruct (N.eqb_spec (N.of_nat 0) (c_alpha c)) as [E | E]; [lia |].
       unfold schedule. rewrite Ec. cbn [snd]. discriminate.
 Qed.
@@ -1340,8 +1340,8 @@ Proof.
   intros c s g now l Hg Hk. pose proof (gi_provs _ _ _ Hg Hk) as Hp.
   unfold next_action. destruct (done s); [discriminate |]. rewrite Hk.
   unfold next_providers. destruct (is_done s).
-  - destruct (provs s) eqn:E; unfold finish; cbn [snd]; [discriminate |].
-    intros H. injection H as <-. rewrite <- Hp. reflexivity.
+  - destruct (c_kprov c ++ provs s) eqn:E; unfold finish; cbn [snd]; [discriminate |].
+    intros H. injection H as <-. rewrite <- Hp, E. reflexivity.
   - destruct (N.of_nat (length (pend s)) =? c_alpha c); cbn [snd]; [discriminate |].
     unfold schedule. destruct (cands s) as [| [d q] t]; cbn [snd]; discriminate.
 Qed.
@@ -1985,4 +1985,904 @@ Lemma env_fail_all_fair : forall U, fair U env_fail_all.
 Proof.
   intros U idle s _. unfold env_fail_all. cbn [e_move]. destruct idle; [| left; reflexivity].
   destruct (pend s) as [| x t]; [right; reflexivity |]. split; [left; reflexivity | exact I].
+Qed.
+
+(* ------------------------------------------------------------------ what a terminal action means *)
+
+Lemma is_done_true : forall s, is_done s = true -> pend s = [] /\ cands s = [].
+Proof.
+  intros s. unfold is_done. destruct (pend s); [| discriminate]. destruct (cands s); [auto | discriminate].
+Qed.
+
+Lemma schedule_not_terminal : forall c s now, is_terminal (snd (schedule c s now)) = false.
+Proof. intros c s now. unfold schedule. destruct (cands s) as [| [d q] t]; reflexivity. Qed.
+
+Lemma failed_cond : forall c s now,
+  snd (next_action c s now) = AFailed ->
+  pend s = [] /\ cands s = [] /\
+  match c_kind c with
+  | KFind => resps s = []
+  | KRecord => c_known c + found s = 0
+  | KProviders => c_kprov c ++ provs s = []
+  end.
+Proof.
+  intros c s now. unfold next_action. destruct (done s); [discriminate |]. destruct (c_kind c).
+  - unfold next_find. destruct (is_done s) eqn:Ed.
+    + destruct (is_done_true s Ed) as [A B]. destruct (resps s); unfold finish; cbn [snd]; [auto | discriminate].
+    + cbn [pr set_pr]. destruct (count_fresh (c_timeout c) now (pend s) =? c_alpha c); [cbn [snd]; discriminate |].
+      cbn [resps set_pr]. destruct (N.of_nat (length (resps s)) <? c_k c).
+      { intros H. pose proof (schedule_not_terminal c (set_pr s (count_fresh (c_timeout c) now (pend s))) now) as X.
+        rewrite H in X. discriminate X. }
+      cbn [cands set_pr]. destruct (cands s) as [| [cd cp] ct]; [unfold finish; cbn [snd]; discriminate |].
+      destruct (last_opt (resps s)) as [[wd wp] |]; [| unfold finish; cbn [snd]; discriminate].
+      destruct (c_dist c cp <? wd); [| unfold finish; cbn [snd]; discriminate].
+      intros H. pose proof (schedule_not_terminal c (set_pr s (count_fresh (c_timeout c) now (pend s))) now) as X.
+      rewrite H in X. discriminate X.
+  - unfold next_record. destruct (recq s) as [| [q r] t]; [| cbn [snd]; discriminate].
+    destruct (is_done s) eqn:Ed.
+    + destruct (is_done_true s Ed) as [A B]. destruct (N.eqb_spec (c_known c + found s) 0); unfold finish; cbn [snd]; [auto | discriminate].
+    + destruct (c_needed c <=? c_known c + found s); [unfold finish; cbn [snd]; discriminate |].
+      destruct (N.of_nat (length (pend s)) =? c_alpha c); [cbn [snd]; discriminate |].
+      intros H. pose proof (schedule_not_terminal c s now) as X. rewrite H in X. discriminate X.
+  - unfold next_providers. destruct (is_done s) eqn:Ed.
+    + destruct (is_done_true s Ed) as [A B]. destruct (c_kprov c ++ provs s); unfold finish; cbn [snd]; [auto | discriminate].
+    + destruct (N.of_nat (length (pend s)) =? c_alpha c); [cbn [snd]; discriminate |].
+      intros H. pose proof (schedule_not_terminal c s now) as X. rewrite H in X. discriminate X.
+Qed.
+
+Lemma recdone_cond : forall c s now,
+  snd (next_action c s now) = ARecDone ->
+  c_kind c = KRecord /\ recq s = [] /\
+  (c_needed c <= c_known c + found s \/
+   (pend s = [] /\ cands s = [] /\ c_known c + found s <> 0)).
+Proof.
+  intros c s now. unfold next_action. destruct (done s); [discriminate |]. destruct (c_kind c).
+  - unfold next_find. destruct (is_done s).
+    + destruct (resps s); unfold finish; cbn [snd]; discriminate.
+    + cbn [pr set_pr]. destruct (count_fresh (c_timeout c) now (pend s) =? c_alpha c); [cbn [snd]; discriminate |].
+      cbn [resps set_pr]. destruct (N.of_nat (length (resps s)) <? c_k c).
+      { intros H. pose proof (schedule_not_terminal c (set_pr s (count_fresh (c_timeout c) now (pend s))) now) as X.
+        rewrite H in X. discriminate X. }
+      cbn [cands set_pr]. destruct (cands s) as [| [cd cp] ct]; [unfold finish; cbn [snd]; discriminate |].
+      destruct (last_opt (resps s)) as [[wd wp] |]; [| unfold finish; cbn [snd]; discriminate].
+      destruct (c_dist c cp <? wd); [| unfold finish; cbn [snd]; discriminate].
+      intros H. pose proof (schedule_not_terminal c (set_pr s (count_fresh (c_timeout c) now (pend s))) now) as X.
+      rewrite H in X. discriminate X.
+  - unfold next_record. destruct (recq s) as [| [q r] t]; [| cbn [snd]; discriminate].
+    destruct (is_done s) eqn:Ed.
+    + destruct (is_done_true s Ed) as [A B]. destruct (N.eqb_spec (c_known c + found s) 0); unfold finish; cbn [snd]; [discriminate |].
+      intros _. split; [reflexivity | split; [reflexivity |]]. right. auto.
+    + destruct (N.leb_spec (c_needed c) (c_known c + found s)) as [L | L].
+      * unfold finish; cbn [snd]. intros _. split; [reflexivity | split; [reflexivity |]]. left. exact L.
+      * destruct (N.of_nat (length (pend s)) =? c_alpha c); [cbn [snd]; discriminate |].
+        intros H. pose proof (schedule_not_terminal c s now) as X. rewrite H in X. discriminate X.
+  - unfold next_providers. destruct (is_done s).
+    + destruct (c_kprov c ++ provs s); unfold finish; cbn [snd]; discriminate.
+    + destruct (N.of_nat (length (pend s)) =? c_alpha c); [cbn [snd]; discriminate |].
+      intros H. pose proof (schedule_not_terminal c s now) as X. rewrite H in X. discriminate X.
+Qed.
+
+Lemma provdone_cond : forall c s now l,
+  snd (next_action c s now) = AProvDone l -> pend s = [] /\ cands s = [].
+Proof.
+  intros c s now l. unfold next_action. destruct (done s); [discriminate |]. destruct (c_kind c).
+  - unfold next_find. destruct (is_done s).
+    + destruct (resps s); unfold finish; cbn [snd]; discriminate.
+    + cbn [pr set_pr]. destruct (count_fresh (c_timeout c) now (pend s) =? c_alpha c); [cbn [snd]; discriminate |].
+      cbn [resps set_pr]. destruct (N.of_nat (length (resps s)) <? c_k c).
+      { intros H. pose proof (schedule_not_terminal c (set_pr s (count_fresh (c_timeout c) now (pend s))) now) as X.
+        rewrite H in X. discriminate X. }
+      cbn [cands set_pr]. destruct (cands s) as [| [cd cp] ct]; [unfold finish; cbn [snd]; discriminate |].
+      destruct (last_opt (resps s)) as [[wd wp] |]; [| unfold finish; cbn [snd]; discriminate].
+      destruct (c_dist c cp <? wd); [| unfold finish; cbn [snd]; discriminate].
+      intros H. pose proof (schedule_not_terminal c (set_pr s (count_fresh (c_timeout c) now (pend s))) now) as X.
+      rewrite H in X. discriminate X.
+  - unfold next_record. destruct (recq s) as [| [q r] t]; [| cbn [snd]; discriminate].
+    destruct (is_done s).
+    + destruct (c_known c + found s =? 0); unfold finish; cbn [snd]; discriminate.
+    + destruct (c_needed c <=? c_known c + found s); [unfold finish; cbn [snd]; discriminate |].
+      destruct (N.of_nat (length (pend s)) =? c_alpha c); [cbn [snd]; discriminate |].
+      intros H. pose proof (schedule_not_terminal c s now) as X. rewrite H in X. discriminate X.
+  - unfold next_providers. destruct (is_done s) eqn:Ed.
+    + intros _. apply is_done_true. exact Ed.
+    + destruct (N.of_nat (length (pend s)) =? c_alpha c); [cbn [snd]; discriminate |].
+      intros H. pose proof (schedule_not_terminal c s now) as X. rewrite H in X. discriminate X.
+Qed.
+
+Lemma exhausted_intro : forall c s g,
+  ginv c s g -> pend s = [] -> cands s = [] -> exhausted_at c s g.
+Proof.
+  intros c s g Hg Hp Hc. split; [exact Hp |]. intros p Hk Hl.
+  apply (gi_sent _ _ _ Hg). destruct (gi_known _ _ _ Hg p Hk) as [X | [X | X]]; [contradiction | | exact X].
+  rewrite Hc in X. destruct X.
+Qed.
+
+Lemma reach_all : forall c seeds es,
+  dist_inj c -> ~ In (c_local c) seeds ->
+  let s := fst (grun c (init c seeds) (ghost0 seeds) es) in
+  let g := snd (grun c (init c seeds) (ghost0 seeds) es) in
+  Inv c s /\ ginv c s g /\ winv c s g.
+Proof.
+  intros c seeds es Hinj Hl s g. destruct (reach_inv c seeds es Hinj Hl) as [Hi Hg].
+  split; [exact Hi | split; [exact Hg |]].
+  apply grun_winv; [exact Hinj | apply init_inv; exact Hl | apply init_ginv; exact Hinj |].
+  intros _ q' [].
+Qed.
+
+(* QueryFailed: everybody the lookup learned of was tried, nothing is outstanding, and nothing at
+   all was obtained *)
+Lemma failed_reach : forall c seeds es now,
+  dist_inj c -> ~ In (c_local c) seeds ->
+  let s := fst (grun c (init c seeds) (ghost0 seeds) es) in
+  let g := snd (grun c (init c seeds) (ghost0 seeds) es) in
+  snd (next_action c s now) = AFailed ->
+  exhausted_at c s g /\
+  match c_kind c with
+  | KFind => g_answered g = [] \/ c_k c = 0
+  | KRecord => c_known c = 0 /\ g_got g = []
+  | KProviders => c_kprov c = [] /\ g_provs g = []
+  end.
+Proof.
+  intros c seeds es now Hinj Hl s g Ha. destruct (reach_all c seeds es Hinj Hl) as [Hi [Hg Hw]].
+  destruct (failed_cond c s now Ha) as [Hp [Hc Hk]].
+  split; [apply exhausted_intro; assumption |].
+  destruct (c_kind c) eqn:Ek.
+  - destruct (g_answered g) as [| q t] eqn:Ea; [left; reflexivity | right].
+    assert (X : In q (g_answered (snd (grun c (init c seeds) (ghost0 seeds) es)))) by (fold g; rewrite Ea; left; reflexivity).
+    destruct (Hw Ek q X) as [Y _]; [fold s; rewrite Hk; intros [] |].
+    fold s in Y. rewrite Hk in Y. cbn [length] in Y. lia.
+  - pose proof (gi_found _ _ _ Hg Ek) as Hf. fold s g in Hf.
+    assert (c_known c = 0 /\ length (g_got g) = 0%nat) as [A B] by lia.
+    split; [exact A | destruct (g_got g); [reflexivity | discriminate B]].
+  - pose proof (gi_provs _ _ _ Hg Ek) as Hpv. fold s g in Hpv. rewrite Hpv in Hk.
+    apply app_eq_nil in Hk. exact Hk.
+Qed.
+
+(* GetRecordQueryDone: the quorum is really met (local record counted once), or everybody was
+   tried and at least one record exists *)
+Lemma recdone_reach : forall c seeds es now,
+  dist_inj c -> ~ In (c_local c) seeds ->
+  let s := fst (grun c (init c seeds) (ghost0 seeds) es) in
+  let g := snd (grun c (init c seeds) (ghost0 seeds) es) in
+  snd (next_action c s now) = ARecDone ->
+  c_needed c <= c_known c + N.of_nat (length (g_got g)) \/
+  (exhausted_at c s g /\ 1 <= c_known c + N.of_nat (length (g_got g))).
+Proof.
+  intros c seeds es now Hinj Hl s g Ha. destruct (reach_all c seeds es Hinj Hl) as [Hi [Hg Hw]].
+  destruct (recdone_cond c s now Ha) as [Hk [Hr H]].
+  pose proof (gi_found _ _ _ Hg Hk) as Hf. fold s g in Hf.
+  destruct H as [H | [Hp [Hc H]]]; [left; lia | right].
+  split; [apply exhausted_intro; assumption | lia].
+Qed.
+
+Lemma provdone_reach : forall c seeds es now l,
+  dist_inj c -> ~ In (c_local c) seeds ->
+  let s := fst (grun c (init c seeds) (ghost0 seeds) es) in
+  let g := snd (grun c (init c seeds) (ghost0 seeds) es) in
+  snd (next_action c s now) = AProvDone l -> exhausted_at c s g.
+Proof.
+  intros c seeds es now l Hinj Hl s g Ha. destruct (reach_all c seeds es Hinj Hl) as [Hi [Hg Hw]].
+  destruct (provdone_cond c s now l Ha) as [Hp Hc]. apply exhausted_intro; assumption.
+Qed.
+
+Definition cknown (s : state) (g : ghost) : Prop := forall x, In x (cands s) -> In (snd x) (g_known g).
+
+Lemma cknown_step : forall c s g e,
+  cknown s g -> cknown (fst (step c s e)) (gstep c s g e (snd (step c s e))).
+Proof.
+  intros c s g e H. unfold cknown in *. destruct e as [now | p r | p | p]; cbn [step fst snd].
+  - pose proof (next_action_shape c s now) as Hs. destruct (next_action c s now) as [s' a]. cbn [fst snd] in *.
+    cbn [gstep g_known].
+    destruct Hs as [[A _] _ | d p t _ Ec A | p r _ _ _ A | a _ _ _ [A _]]; rewrite A; try exact H.
+    intros x Hx. apply H. rewrite Ec. right. exact Hx.
+  - cbn [gstep]. destruct (effective s p) eqn:He; [| rewrite on_response_noeff; assumption].
+    destruct (on_response_eff c s p r He) as [_ [_ [C _]]]. rewrite C. cbn [g_known].
+    apply add_cands_in.
+    + intros q Hq. apply in_app_iff. right. exact Hq.
+    + intros x Hx. apply in_app_iff. left. apply H. exact Hx.
+  - cbn [gstep]. destruct (effective s p) eqn:He; [| rewrite on_failure_noeff; assumption].
+    destruct (on_failure_eff c s p He) as [_ [_ [C _]]]. rewrite C. exact H.
+  - exact H.
+Qed.
+
+Lemma cknown_reach : forall c seeds es,
+  cknown (fst (grun c (init c seeds) (ghost0 seeds) es)) (snd (grun c (init c seeds) (ghost0 seeds) es)).
+Proof.
+  intros c seeds es.
+  assert (G : forall es s g, cknown s g -> cknown (fst (grun c s g es)) (snd (grun c s g es))).
+  { intros es0. induction es0 as [| e t IH]; intros s g H; cbn [grun]; [exact H |].
+    pose proof (cknown_step c s g e H) as H1. destruct (step c s e) as [s1 a]. cbn [fst snd] in H1. apply IH. exact H1. }
+  apply G. unfold cknown, ghost0. cbn [g_known]. apply (init_cands_in c seeds seeds). auto.
+Qed.
+
+(* every request goes to the closest peer the lookup knows of and has not contacted yet *)
+Lemma send_closest_reach : forall c seeds es now p,
+  dist_inj c -> ~ In (c_local c) seeds ->
+  let s := fst (grun c (init c seeds) (ghost0 seeds) es) in
+  let g := snd (grun c (init c seeds) (ghost0 seeds) es) in
+  snd (next_action c s now) = ASend p ->
+  In p (g_known g) /\ ~ In p (g_sent g) /\ p <> c_local c /\
+  forall q, In q (g_known g) -> q <> c_local c -> ~ In q (g_sent g) -> c_dist c p <= c_dist c q.
+Proof.
+  intros c seeds es now p Hinj Hl s g Ha. destruct (reach_all c seeds es Hinj Hl) as [Hi [Hg Hw]].
+  fold s g in Hi, Hg.
+  pose proof (next_action_shape c s now) as Hs. rewrite Ha in Hs.
+  inversion Hs as [| d p' t Hd Ec A B C D E0 F G0 Hd' | |]; subst.
+  2:{ match goal with H : is_terminal (ASend p) = true |- _ => discriminate H end. }
+  unfold Inv in Hi. rewrite Ec in Hi.
+  destruct (i_cfresh _ _ _ _ Hi (d, p) (or_introl eq_refl)) as [Hp [Hq Hloc]]. cbn [snd] in Hp, Hq, Hloc.
+  pose proof (i_dist _ _ _ _ Hi (d, p) (or_introl eq_refl)) as Hd0. cbn [fst snd] in Hd0.
+  pose proof (i_sorted _ _ _ _ Hi) as Hso. cbn [ssorted] in Hso. destruct Hso as [Hso _].
+  split; [| split; [| split; [exact Hloc |]]].
+  - (* p was learned: it is a candidate, and candidates come from seeds and replies *)
+    apply (cknown_reach c seeds es (d, p)). fold s. rewrite Ec. left. reflexivity.
+  - intros X. apply (gi_sent _ _ _ Hg) in X. tauto.
+  - intros q Hk Hnl Hns.
+    destruct (gi_known _ _ _ Hg q Hk) as [X | [X | X]]; [contradiction | |].
+    + rewrite Ec in X. cbn [map snd In] in X. destruct X as [X | X]; [subst q; lia |].
+      apply in_map_iff in X. destruct X as [y [Ey Hy]]. subst q.
+      specialize (Hso y Hy). cbn [fst] in Hso.
+      pose proof (i_dist _ _ _ _ Hi y (or_intror Hy)). lia.
+    + exfalso. apply Hns. apply (gi_sent _ _ _ Hg). exact X.
+Qed.
+
+(* ------------------------------------------------------------------ closest responsive peers *)
+
+Lemma dsorted_nodup : forall c l, dsorted c l -> NoDup l.
+Proof.
+  intros c l. induction l as [| a t IH]; intros H; [constructor |].
+  cbn [dsorted] in H. destruct H as [H1 H2]. constructor; [| apply IH; exact H2].
+  intros X. specialize (H1 a X). lia.
+Qed.
+
+Lemma dsorted_ext : forall c l1 l2,
+  dsorted c l1 -> dsorted c l2 -> (forall x, In x l1 <-> In x l2) -> l1 = l2.
+Proof.
+  intros c l1. induction l1 as [| a t IH]; intros l2 H1 H2 He.
+  - destruct l2 as [| b t2]; [reflexivity |]. exfalso. apply (He b). left. reflexivity.
+  - destruct l2 as [| b t2]; [exfalso; apply (He a); left; reflexivity |].
+    cbn [dsorted] in H1, H2. destruct H1 as [A1 A2], H2 as [B1 B2].
+    assert (a = b).
+    { destruct (N.eq_dec a b) as [E | E]; [exact E | exfalso].
+      assert (X : In a t2). { destruct (proj1 (He a) (or_introl eq_refl)) as [Y | Y]; [congruence | exact Y]. }
+      assert (Y : In b t). { destruct (proj2 (He b) (or_introl eq_refl)) as [Z | Z]; [congruence | exact Z]. }
+      specialize (A1 b Y). specialize (B1 a X). lia. }
+    subst b. f_equal. apply IH; [exact A2 | exact B2 |].
+    intros x. split; intros Hx.
+    + destruct (proj1 (He x) (or_intror Hx)) as [Y | Y]; [| exact Y]. subst x. specialize (A1 a Hx). lia.
+    + destruct (proj2 (He x) (or_intror Hx)) as [Y | Y]; [| exact Y]. subst x. specialize (B1 a Hx). lia.
+Qed.
+
+(* "the k closest of ans" determines the list *)
+Lemma kclosest_unique : forall c k ans l1 l2,
+  kclosest c k ans l1 -> kclosest c k ans l2 -> l1 = l2.
+Proof.
+  intros c k ans l1 l2 [A1 [A2 [A3 A4]]] [B1 [B2 [B3 B4]]].
+  apply (dsorted_ext c); [exact A2 | exact B2 |].
+  assert (G : forall la lb,
+            (forall p, In p la -> In p ans) -> (forall p, In p lb -> In p ans) ->
+            N.of_nat (length la) <= k -> dsorted c lb ->
+            (forall q, In q ans -> ~ In q lb ->
+               N.of_nat (length lb) = k /\ forall w, In w lb -> c_dist c w < c_dist c q) ->
+            (forall q, In q ans -> ~ In q la ->
+               N.of_nat (length la) = k /\ forall w, In w la -> c_dist c w < c_dist c q) ->
+            forall x, In x la -> In x lb).
+  { intros la lb Ha Hb0 Hla Hsb Hb Hcl x Hx.
+    destruct (in_dec N.eq_dec x lb) as [Y | Y]; [exact Y | exfalso].
+    destruct (Hb x (Ha x Hx) Y) as [Lb Cb].
+    (* if every w of lb were in la then, lb being duplicate-free and at least as long, la would be
+       included in lb *)
+    assert (I : incl la lb).
+    { apply (NoDup_length_incl (dsorted_nodup c lb Hsb)); [lia |].
+      intros w Hw. destruct (in_dec N.eq_dec w la) as [Z | Z]; [exact Z | exfalso].
+      destruct (Hcl w (Hb0 w Hw) Z) as [_ Ca]. specialize (Ca x Hx). specialize (Cb w Hw). lia. }
+    apply Y. apply I. exact Hx. }
+  intros x. split; intros Hx.
+  - apply (G l1 l2); assumption.
+  - apply (G l2 l1); assumption.
+Qed.
+
+(* FIND_NODE-type success (also the lookup phase of PUT_VALUE and ADD_PROVIDER): the reported list
+   is exactly the k closest of all peers that responded; and every other peer the lookup learned
+   of that is closer than the furthest reported one was contacted and did not respond *)
+Lemma closest_responsive_reach : forall c seeds es now l,
+  dist_inj c -> ~ In (c_local c) seeds -> c_kind c = KFind ->
+  let s := fst (grun c (init c seeds) (ghost0 seeds) es) in
+  let g := snd (grun c (init c seeds) (ghost0 seeds) es) in
+  snd (next_action c s now) = AFound l ->
+  kclosest c (c_k c) (g_answered g) l /\
+  (forall p w, In p (g_known g) -> p <> c_local c -> ~ In p l -> last_opt l = Some w ->
+               c_dist c p < c_dist c w -> In p (g_sent g) /\ ~ In p (g_answered g)).
+Proof.
+  intros c seeds es now l Hinj Hl Hk s g Ha.
+  destruct (find_result_reach c seeds es now l Hinj Hl Hk Ha) as [R1 [R2 [R3 R4]]].
+  pose proof (find_topk_reach c seeds es now l Hinj Hl Hk Ha) as R5. fold s g in R1, R4, R5.
+  split; [split; [exact R1 | split; [exact R2 | split; [exact R3 | exact R5]]] |].
+  intros p w Hp Hnl Hnin Hw Hlt. split; [apply (R4 p w); assumption |].
+  intros X. destruct (R5 p X Hnin) as [_ Y]. specialize (Y w (last_opt_In _ _ _ Hw)). lia.
+Qed.
+
+Lemma found_nonempty : forall c s now l,
+  1 <= c_k c -> c_kind c = KFind -> snd (next_action c s now) = AFound l -> l <> [].
+Proof.
+  intros c s now l Hk1 Hk. unfold next_action. destruct (done s); [discriminate |]. rewrite Hk.
+  unfold next_find. destruct (is_done s).
+  - destruct (resps s) eqn:Er; unfold finish; cbn [snd]; intros H; [discriminate |].
+    injection H as <-. cbn [map]. discriminate.
+  - cbn [pr set_pr]. destruct (count_fresh (c_timeout c) now (pend s) =? c_alpha c); [cbn [snd]; discriminate |].
+    cbn [resps set_pr]. destruct (N.ltb_spec (N.of_nat (length (resps s))) (c_k c)) as [L | L].
+    { intros H. exfalso. eapply schedule_not_found. exact H. }
+    assert (NE : map snd (resps s) <> []).
+    { destruct (resps s); [cbn [length] in L; lia | cbn [map]; discriminate]. }
+    cbn [cands set_pr]. destruct (cands s) as [| [cd cp] ct].
+    + unfold finish. cbn [snd resps]. intros H. injection H as <-. exact NE.
+    + destruct (last_opt (resps s)) as [[wd wp] |].
+      * destruct (c_dist c cp <? wd).
+        { intros H. exfalso. eapply schedule_not_found. exact H. }
+        unfold finish. cbn [snd resps]. intros H. injection H as <-. exact NE.
+      * unfold finish. cbn [snd resps]. intros H. injection H as <-. exact NE.
+Qed.
+
+(* Interface for the send phase (C16): what PutRecordToFoundNodes / AddProviderToFoundNodes /
+   FindNodeQuerySucceeded hand over *)
+Lemma lookup_interface : forall c seeds es now l,
+  dist_inj c -> ~ In (c_local c) seeds -> c_kind c = KFind ->
+  let s := fst (grun c (init c seeds) (ghost0 seeds) es) in
+  let g := snd (grun c (init c seeds) (ghost0 seeds) es) in
+  snd (next_action c s now) = AFound l ->
+  NoDup l /\ ~ In (c_local c) l /\ N.of_nat (length l) <= c_k c /\
+  (forall p, In p l -> In p (g_answered g) /\ In p (g_sent g)) /\
+  kclosest c (c_k c) (g_answered g) l /\
+  (1 <= c_k c -> l <> []).
+Proof.
+  intros c seeds es now l Hinj Hl Hk s g Ha.
+  destruct (closest_responsive_reach c seeds es now l Hinj Hl Hk Ha) as [K _]. fold s g in K.
+  destruct (reach_all c seeds es Hinj Hl) as [Hi [Hg _]]. fold s g in Hi, Hg.
+  destruct K as [K1 [K2 [K3 K4]]].
+  assert (S : forall p, In p l -> In p (queried s)) by (intros p Hp; apply (gi_ans _ _ _ Hg); apply K1; exact Hp).
+  split; [apply (dsorted_nodup c); exact K2 | split; [| split; [exact K3 | split; [| split]]]].
+  - intros X. apply (i_qlocal _ _ _ _ Hi). apply S. exact X.
+  - intros p Hp. split; [apply K1; exact Hp | apply (gi_sent _ _ _ Hg); right; apply S; exact Hp].
+  - split; [exact K1 | split; [exact K2 | split; [exact K3 | exact K4]]].
+  - intros Hk1. apply (found_nonempty c s now l Hk1 Hk Ha).
+Qed.
+
+(* ------------------------------------------------------------------ isolation of queries *)
+
+Lemma peq_refl : forall s, peq s s.
+Proof. intros s. unfold peq. repeat split; reflexivity. Qed.
+
+Lemma peq_sym : forall s s', peq s s' -> peq s' s.
+Proof. intros s s' H. unfold peq in *. decompose [and] H. repeat split; congruence. Qed.
+
+Lemma peq_trans : forall a b d, peq a b -> peq b d -> peq a d.
+Proof. intros a b d H1 H2. unfold peq in *. decompose [and] H1. decompose [and] H2. repeat split; congruence. Qed.
+
+Lemma peq_set_pr : forall s s', peq s s' -> s' = set_pr s (pr s').
+Proof.
+  intros s s' H. unfold peq in H. decompose [and] H. destruct s, s'. cbn in *. unfold set_pr. cbn. congruence.
+Qed.
+
+Lemma next_none_peq : forall c s now, snd (next_action c s now) = ANone -> peq s (fst (next_action c s now)).
+Proof.
+  intros c s now H. pose proof (next_action_shape c s now) as Hs. rewrite H in Hs.
+  inversion Hs as [H7 Hd | | |]; subst.
+  - destruct H7 as [A [B [C [D [E [F G]]]]]]. unfold peq. repeat split; assumption.
+  - match goal with X : is_terminal ANone = true |- _ => discriminate X end.
+Qed.
+
+Ltac crush_if :=
+  repeat match goal with
+         | |- context [if ?b then _ else _] => destruct b
+         | |- context [match ?x with _ => _ end] => destruct x
+         end.
+
+Lemma next_action_set_pr : forall c s n now,
+  peq (fst (next_action c s now)) (fst (next_action c (set_pr s n) now)) /\
+  snd (next_action c s now) = snd (next_action c (set_pr s n) now).
+Proof.
+  intros c s n now. destruct s as [cs pd qd rs p0 fd rq pv dn].
+  unfold next_action, set_pr. cbn [done cands pend queried resps pr found recq provs].
+  destruct dn; [split; [unfold peq; cbn; repeat split; reflexivity | reflexivity] |].
+  destruct (c_kind c) eqn:Ek.
+  - unfold next_find, is_done, set_pr, finish, schedule.
+    cbn [done cands pend queried resps pr found recq provs]. rewrite ?Ek.
+    crush_if; cbn [fst snd]; (split; [unfold peq; cbn; repeat split; reflexivity | reflexivity]).
+  - unfold next_record, is_done, finish, schedule.
+    cbn [done cands pend queried resps pr found recq provs]. rewrite ?Ek.
+    crush_if; cbn [fst snd]; (split; [unfold peq; cbn; repeat split; reflexivity | reflexivity]).
+  - unfold next_providers, is_done, finish, schedule.
+    cbn [done cands pend queried resps pr found recq provs]. rewrite ?Ek.
+    crush_if; cbn [fst snd]; (split; [unfold peq; cbn; repeat split; reflexivity | reflexivity]).
+Qed.
+
+Lemma on_response_set_pr : forall c s n p r, peq (on_response c s p r) (on_response c (set_pr s n) p r).
+Proof.
+  intros c s n p r. destruct s as [cs pd qd rs p0 fd rq pv dn].
+  unfold on_response, set_pr. cbn [done cands pend queried resps pr found recq provs].
+  crush_if; unfold peq; cbn; repeat split; reflexivity.
+Qed.
+
+Lemma on_failure_set_pr : forall c s n p, peq (on_failure c s p) (on_failure c (set_pr s n) p).
+Proof.
+  intros c s n p. destruct s as [cs pd qd rs p0 fd rq pv dn].
+  unfold on_failure, set_pr. cbn [done cands pend queried resps pr found recq provs].
+  crush_if; unfold peq; cbn; repeat split; reflexivity.
+Qed.
+
+(* the behaviour of a query does not depend on the value of `pr` *)
+Lemma step_peq : forall c s s' e,
+  peq s s' -> peq (fst (step c s e)) (fst (step c s' e)) /\ snd (step c s e) = snd (step c s' e).
+Proof.
+  intros c s s' e H. rewrite (peq_set_pr s s' H). destruct e as [now | p r | p | p]; cbn [step fst snd].
+  - apply next_action_set_pr.
+  - split; [apply on_response_set_pr | reflexivity].
+  - split; [apply on_failure_set_pr | reflexivity].
+  - split; [| reflexivity]. unfold peq, set_pr. cbn. repeat split; reflexivity.
+Qed.
+
+(* dropping the polls that returned nothing changes neither the final state (up to `pr`) nor the
+   visible actions *)
+Lemma essential_equiv : forall c es s s',
+  peq s s' ->
+  peq (fst (run c s es)) (fst (run c s' (essential c s es))) /\
+  visible (snd (run c s es)) = visible (snd (run c s' (essential c s es))).
+Proof.
+  intros c es. induction es as [| e t IH]; intros s s' H; cbn [run essential]; [split; [exact H | reflexivity] |].
+  destruct (step_peq c s s' e H) as [P1 P2].
+  destruct (step c s e) as [s1 a] eqn:Es. cbn [fst snd] in P1, P2.
+  assert (Drop : (exists now, e = ENext now) /\ a = ANone ->
+                 peq (fst (let '(s2, l) := run c s1 t in (s2, a :: l))) (fst (run c s' (essential c s1 t))) /\
+                 visible (snd (let '(s2, l) := run c s1 t in (s2, a :: l))) = visible (snd (run c s' (essential c s1 t)))).
+  { intros [[now En] Ea]. subst e.
+    assert (Q : peq s1 s').
+    { apply (peq_trans _ s); [| exact H]. apply peq_sym.
+      pose proof (next_none_peq c s now) as X. cbn [step] in Es. rewrite Es in X. cbn [fst snd] in X. apply X. exact Ea. }
+    destruct (IH s1 s' Q) as [A B]. destruct (run c s1 t) as [s2 l]. cbn [fst snd] in *.
+    split; [exact A |]. rewrite Ea. exact B. }
+  assert (Keep : peq (fst (let '(s2, l) := run c s1 t in (s2, a :: l))) (fst (run c s' (e :: essential c s1 t))) /\
+                 visible (snd (let '(s2, l) := run c s1 t in (s2, a :: l))) = visible (snd (run c s' (e :: essential c s1 t)))).
+  { cbn [run]. destruct (step c s' e) as [s1' a'] eqn:Es'. cbn [fst snd] in P1, P2. subst a'.
+    destruct (IH s1 s1' P1) as [A B]. destruct (run c s1 t) as [s2 l]. destruct (run c s1' (essential c s1 t)) as [s2' l'].
+    cbn [fst snd] in *. split; [exact A |]. unfold visible in *. cbn [filter]. rewrite B. reflexivity. }
+  destruct e as [now | p r | p | p]; try exact Keep.
+  destruct a; try exact Keep. apply Drop. split; [exists now; reflexivity | reflexivity].
+Qed.
+
+(* Isolation: in a shared engine, whatever the polling order and however often the other queries
+   (or this one, without effect) are polled, query i ends — up to the write-before-read counter
+   `pr` — in the state it reaches alone on its own essential events; an event that does not
+   reach query i leaves it untouched *)
+Lemma query_isolation : forall ms eng i c s,
+  nth_error eng i = Some (c, s) ->
+  exists s', nth_error (fst (mrun eng ms)) i = Some (c, s') /\
+             peq s' (fst (run c s (essential c s (events_of i (snd (mrun eng ms)))))).
+Proof.
+  intros ms eng i c s H. pose proof (queries_independent ms eng i c s H) as G.
+  eexists. split; [exact G |]. apply essential_equiv. apply peq_refl.
+Qed.
+
+Lemma mstep_frame : forall eng m i c s,
+  nth_error eng i = Some (c, s) -> events_of i (snd (mstep eng m)) = [] ->
+  nth_error (fst (fst (mstep eng m))) i = Some (c, s).
+Proof.
+  intros eng m i c s H E. pose proof (mstep_query eng m i c s H) as G. rewrite E in G. exact G.
+Qed.
+
+(* two runs of a shared engine (different polling orders, different traffic for the other
+   queries) that bring the same essential events to query i leave it in the same state *)
+Lemma order_irrelevant : forall ms1 ms2 eng1 eng2 i c s,
+  nth_error eng1 i = Some (c, s) -> nth_error eng2 i = Some (c, s) ->
+  essential c s (events_of i (snd (mrun eng1 ms1))) = essential c s (events_of i (snd (mrun eng2 ms2))) ->
+  exists s1 s2, nth_error (fst (mrun eng1 ms1)) i = Some (c, s1) /\
+                nth_error (fst (mrun eng2 ms2)) i = Some (c, s2) /\ peq s1 s2.
+Proof.
+  intros ms1 ms2 eng1 eng2 i c s H1 H2 E.
+  destruct (query_isolation ms1 eng1 i c s H1) as [s1 [A1 B1]].
+  destruct (query_isolation ms2 eng2 i c s H2) as [s2 [A2 B2]].
+  exists s1, s2. split; [exact A1 | split; [exact A2 |]].
+  rewrite E in B1. apply (peq_trans _ _ _ B1). apply peq_sym. exact B2.
+Qed.
+
+(* ------------------------------------------------------------------ timed termination *)
+
+Lemma unvisited_resolve : forall c U s s' p,
+  Inv c s -> In p (map fst (pend s)) ->
+  pend s' = premove p (pend s) -> queried s' = set_add p (queried s) ->
+  unvisited U s' = unvisited U s.
+Proof.
+  intros c U s s' p Hi Hp A B. unfold unvisited. rewrite A, B. apply filter_ext_len. intros x _. f_equal.
+  destruct (N.eq_dec x p) as [E | E].
+  - subst x. assert (X : mem p (set_add p (queried s)) = true) by (apply mem_In, set_add_In; left; reflexivity).
+    assert (Y : pmem p (pend s) = true) by (apply pmem_In; exact Hp).
+    rewrite X, Y, orb_true_r. reflexivity.
+  - assert (X : pmem x (premove p (pend s)) = pmem x (pend s)).
+    { destruct (pmem x (pend s)) eqn:Z.
+      - apply pmem_In. apply premove_fst. split; [apply pmem_In; exact Z | exact E].
+      - apply pmem_false. intros W. apply premove_fst in W. apply pmem_false in Z. tauto. }
+    assert (Y : mem x (set_add p (queried s)) = mem x (queried s)).
+    { destruct (mem x (queried s)) eqn:Z.
+      - apply mem_In, set_add_In. right. apply mem_In. exact Z.
+      - apply mem_false. intros W. apply set_add_In in W. apply mem_false in Z. tauto. }
+    rewrite X, Y. reflexivity.
+Qed.
+
+Lemma unvisited_send : forall c U s s' d p t now,
+  Inv c s -> cands_in U s -> cands s = (d, p) :: t ->
+  pend s' = premove p (pend s) ++ [(p, now)] -> queried s' = queried s ->
+  (unvisited U s' < unvisited U s)%nat /\ pend s' = pend s ++ [(p, now)].
+Proof.
+  intros c U s s' d p t now Hi Hc Ec B C. unfold Inv in Hi. rewrite Ec in Hi.
+  destruct (i_cfresh _ _ _ _ Hi (d, p) (or_introl eq_refl)) as [Hp [Hq _]]. cbn [snd] in Hp, Hq.
+  assert (HU : In p U) by (apply (Hc (d, p)); rewrite Ec; left; reflexivity).
+  split; [| rewrite B, (premove_notin p (pend s) Hp); reflexivity].
+  unfold unvisited. rewrite B, C. apply (filter_drop_len _ _ U p HU).
+  - apply pmem_false in Hp. apply mem_false in Hq. rewrite Hp, Hq. reflexivity.
+  - assert (X : pmem p (premove p (pend s) ++ [(p, now)]) = true).
+    { apply pmem_In. rewrite map_app, in_app_iff. right. left. reflexivity. }
+    rewrite X. reflexivity.
+  - intros x Hx. apply negb_true_iff in Hx. apply orb_false_elim in Hx. destruct Hx as [X1 X2].
+    rewrite X2. apply pmem_false in X1. rewrite (premove_notin p (pend s) Hp), map_app, in_app_iff in X1.
+    assert (Y : pmem x (pend s) = false) by (apply pmem_false; tauto). rewrite Y. reflexivity.
+Qed.
+
+Definition slack (T now : N) (x : N * N) : nat := (N.to_nat T + 1 - N.to_nat (now - snd x))%nat.
+Fixpoint psum (T now : N) (pd : list (N * N)) : nat :=
+  match pd with [] => O | x :: t => (slack T now x + psum T now t)%nat end.
+Definition phi (U : list N) (T now : N) (s : state) : nat :=
+  ((N.to_nat T + 1) * unvisited U s + psum T now (pend s))%nat.
+Definition freshp (T now : N) (s : state) : Prop :=
+  forall x, In x (pend s) -> snd x <= now /\ now - snd x <= T.
+Definition msr (U : list N) (s : state) : nat := (mu U s + length (recq s))%nat.
+
+Lemma psum_filter : forall T now f l, (psum T now (filter f l) <= psum T now l)%nat.
+Proof.
+  intros T now f l. induction l as [| x t IH]; cbn [filter psum]; [lia |].
+  destruct (f x); cbn [psum]; lia.
+Qed.
+
+Lemma psum_app : forall T now l1 l2, psum T now (l1 ++ l2) = (psum T now l1 + psum T now l2)%nat.
+Proof. intros T now l1 l2. induction l1 as [| x t IH]; cbn [app psum]; [reflexivity | rewrite IH; lia]. Qed.
+
+Lemma psum_age : forall T now l,
+  (forall x, In x l -> snd x <= now /\ now - snd x <= T) ->
+  (psum T (now + 1) l + length l = psum T now l)%nat.
+Proof.
+  intros T now l. induction l as [| x t IH]; intros H; cbn [psum length]; [reflexivity |].
+  destruct (H x (or_introl eq_refl)) as [A B].
+  assert (IHt : (psum T (now + 1) t + length t = psum T now t)%nat) by (apply IH; intros y Hy; apply H; right; exact Hy).
+  unfold slack. lia.
+Qed.
+
+Lemma psum_pos : forall T now l,
+  (forall x, In x l -> snd x <= now /\ now - snd x <= T) -> l <> [] -> (1 <= psum T now l)%nat.
+Proof.
+  intros T now l H Hn. destruct l as [| x t]; [congruence |]. cbn [psum].
+  destruct (H x (or_introl eq_refl)) as [A B]. unfold slack. lia.
+Qed.
+
+(* events other than next_action calls *)
+Definition quiet (e : event) : Prop := match e with ENext _ => False | _ => True end.
+
+Definition fsub (l' l : list (N * N)) : Prop := exists f, l' = filter f l.
+
+Lemma fsub_refl : forall l, fsub l l.
+Proof.
+  intros l. exists (fun _ => true). induction l as [| x t IH]; cbn [filter]; [reflexivity | f_equal; exact IH].
+Qed.
+
+Lemma fsub_trans : forall a b d, fsub a b -> fsub b d -> fsub a d.
+Proof.
+  intros a b d [f Hf] [g Hg]. exists (fun x => g x && f x). subst a b.
+  induction d as [| x t IH]; cbn [filter]; [reflexivity |].
+  destruct (g x); cbn [filter andb]; [destruct (f x); [f_equal |]; exact IH | exact IH].
+Qed.
+
+Lemma quiet_step : forall c U s e,
+  Inv c s -> cands_in U s -> ev_in U e -> quiet e ->
+  let s' := fst (step c s e) in
+  Inv c s' /\ cands_in U s' /\ fsub (pend s') (pend s) /\
+  unvisited U s' = unvisited U s /\ (msr U s' <= msr U s)%nat /\ done s' = done s.
+Proof.
+  intros c U s e Hi Hc He Hq s'. subst s'.
+  split; [apply step_inv; exact Hi | split; [apply cands_in_step; assumption |]].
+  destruct e as [now | p r | p | p]; [destruct Hq | | |]; cbn [step fst].
+  - destruct (effective s p) eqn:Hf.
+    2:{ rewrite on_response_noeff by exact Hf. split; [apply fsub_refl | split; [reflexivity | split; [lia | reflexivity]]]. }
+    destruct (on_response_eff c s p r Hf) as [A [B [_ [D [D0 [_ [_ F]]]]]]].
+    pose proof (effective_pend s p Hf) as Hp.
+    pose proof (unvisited_resolve c U s (on_response c s p r) p Hi Hp A B) as L.
+    pose proof (premove_length_lt p (pend s) Hp) as L2.
+    assert (R : (length (recq (on_response c s p r)) <= length (recq s) + 1)%nat).
+    { unfold rec_update in F. destruct (c_kind c); try (injection F as _ F2; rewrite F2; lia).
+      destruct (r_rec r) as [[id [|]] |]; injection F as _ F2; rewrite F2; try lia.
+      rewrite app_length. cbn [length]. lia. }
+    split; [rewrite A; exists (fun x => negb (fst x =? p)); reflexivity |].
+    split; [exact L | split; [| congruence]]. unfold msr, mu. rewrite L, A. lia.
+  - destruct (effective s p) eqn:Hf.
+    2:{ rewrite on_failure_noeff by exact Hf. split; [apply fsub_refl | split; [reflexivity | split; [lia | reflexivity]]]. }
+    destruct (on_failure_eff c s p Hf) as [A [B [_ [D [D0 [_ [_ [_ F]]]]]]]].
+    pose proof (effective_pend s p Hf) as Hp.
+    pose proof (unvisited_resolve c U s (on_failure c s p) p Hi Hp A B) as L.
+    pose proof (premove_length_lt p (pend s) Hp) as L2.
+    split; [rewrite A; exists (fun x => negb (fst x =? p)); reflexivity |].
+    split; [exact L | split; [| congruence]]. unfold msr, mu. rewrite L, A, F. lia.
+  - split; [apply fsub_refl | split; [reflexivity | split; [lia | reflexivity]]].
+Qed.
+
+Lemma quiet_run : forall c U es s,
+  Inv c s -> cands_in U s -> Forall (ev_in U) es -> Forall quiet es ->
+  let s' := fst (run c s es) in
+  Inv c s' /\ cands_in U s' /\ fsub (pend s') (pend s) /\
+  unvisited U s' = unvisited U s /\ (msr U s' <= msr U s)%nat /\ done s' = done s.
+Proof.
+  intros c U es. induction es as [| e t IH]; intros s Hi Hc He Hq; cbn zeta.
+  - cbn [run fst]. split; [exact Hi | split; [exact Hc | split; [apply fsub_refl | split; [reflexivity | split; [lia | reflexivity]]]]].
+  - inversion He as [| e1 t1 He1 He2]; subst. inversion Hq as [| e2 t2 Hq1 Hq2]; subst.
+    destruct (quiet_step c U s e Hi Hc He1 Hq1) as [A [B [C [D [E F]]]]].
+    rewrite run_cons_fst. destruct (IH (fst (step c s e)) A B He2 Hq2) as [A' [B' [C' [D' [E' F']]]]].
+    split; [exact A' | split; [exact B' | split; [eapply fsub_trans; eassumption | split; [congruence | split; [lia | congruence]]]]].
+Qed.
+
+Lemma mono_app : forall l1 l2 n, mono n l1 -> mono (clock n l1) l2 -> mono n (l1 ++ l2).
+Proof.
+  induction l1 as [| e t IH]; intros l2 n H1 H2; [exact H2 |].
+  destruct e as [t0 | p r | p | p]; cbn [app mono clock] in *.
+  - destruct H1 as [A B]. split; [exact A | apply IH; assumption].
+  - apply IH; assumption.
+  - apply IH; assumption.
+  - apply IH; assumption.
+Qed.
+
+Lemma clock_app : forall l1 l2 n, clock n (l1 ++ l2) = clock (clock n l1) l2.
+Proof.
+  induction l1 as [| e t IH]; intros l2 n; [reflexivity |].
+  destruct e; cbn [app clock]; apply IH.
+Qed.
+
+Lemma quiet_mono : forall l n, Forall quiet l -> mono n l /\ clock n l = n.
+Proof.
+  induction l as [| e t IH]; intros n H; [split; [exact I | reflexivity] |].
+  inversion H as [| e1 t1 H1 H2]; subst. destruct e; [destruct H1 | | |]; cbn [mono clock]; apply IH; exact H2.
+Qed.
+
+(* the poll phase: next_action is called until it has nothing more to do *)
+Lemma poll_spec : forall c U T now,
+  1 <= c_alpha c ->
+  forall pf s,
+  Inv c s -> cands_in U s -> freshp T now s ->
+  let ep := poll_events pf c s now in
+  let s1 := fst (run c s ep) in
+  Inv c s1 /\ cands_in U s1 /\ freshp T now s1 /\
+  (phi U T now s1 <= phi U T now s)%nat /\ (msr U s1 <= msr U s)%nat /\
+  mono now ep /\ clock now ep = now /\
+  ((msr U s < pf)%nat -> done s1 = true \/ (done s1 = false /\ pend s1 <> [])).
+Proof.
+  intros c U T now Ha pf. induction pf as [| f IH]; intros s Hi Hc Hf; cbn zeta.
+  - cbn [poll_events run fst mono clock].
+    split; [exact Hi | split; [exact Hc | split; [exact Hf | split; [lia | split; [lia | split; [exact I | split; [reflexivity | intros; lia]]]]]]].
+  - cbn [poll_events]. destruct (done s) eqn:Hd.
+    { cbn [run fst mono clock].
+      split; [exact Hi | split; [exact Hc | split; [exact Hf | split; [lia | split; [lia | split; [exact I | split; [reflexivity |]]]]]]].
+      intros _. left. exact Hd. }
+    pose proof (next_action_shape c s now) as Hs.
+    pose proof (step_inv c s (ENext now) Hi) as Hi'. pose proof (cands_in_step c U s (ENext now) I Hc) as Hc'.
+    pose proof (progress c s now Ha Hd) as Hpr.
+    cbn [step fst] in Hi', Hc'.
+    destruct (next_action c s now) as [s1 a] eqn:En. cbn [fst snd] in *.
+    destruct Hs as [[A0 [B0 [C0 [D0 [E0 [F0 G0]]]]]] Hd1 | d p t _ Ec A0 B0 C0 D0 E0 F0 G0 Hd1 | p r _ _ F0 A0 B0 C0 D0 E0 G0 Hd1 | a Ht _ Hd1 [A0 [B0 [C0 [D0 [E0 [F0 G0]]]]]]].
+    + (* nothing to do *)
+      cbn [run step]. rewrite En. cbn [fst mono clock].
+      assert (P : phi U T now s1 = phi U T now s) by (unfold phi, unvisited; rewrite B0, C0; reflexivity).
+      assert (M : msr U s1 = msr U s) by (unfold msr, mu, unvisited; rewrite B0, C0, F0; reflexivity).
+      split; [exact Hi' | split; [exact Hc' | split; [unfold freshp; rewrite B0; exact Hf |]]].
+      split; [lia | split; [lia | split; [split; [lia | exact I] | split; [reflexivity |]]]].
+      intros _. right. split; [congruence |]. rewrite B0. intros X. apply (Hpr X). reflexivity.
+    + (* a request is sent *)
+      destruct (unvisited_send c U s s1 d p t now Hi Hc Ec B0 C0) as [L1 L2].
+      assert (Hf1 : freshp T now s1).
+      { unfold freshp. rewrite L2. intros x Hx. apply in_app_iff in Hx. destruct Hx as [Hx | [Hx | []]]; [apply Hf; exact Hx |].
+        subst x. cbn [snd]. lia. }
+      assert (P : (phi U T now s1 <= phi U T now s)%nat).
+      { unfold phi. rewrite L2, psum_app. cbn [psum]. unfold slack. cbn [snd]. nia. }
+      assert (M : (msr U s1 < msr U s)%nat).
+      { unfold msr, mu. rewrite L2, app_length, F0. cbn [length]. lia. }
+      destruct (IH s1 Hi' Hc' Hf1) as [X1 [X2 [X3 [X4 [X5 [X6 [X7 X8]]]]]]].
+      rewrite run_cons_fst. cbn [step]. rewrite En. cbn [fst mono clock].
+      split; [exact X1 | split; [exact X2 | split; [exact X3 | split; [lia | split; [lia | split; [split; [lia | exact X6] | split; [exact X7 |]]]]]]].
+      intros Hlt. apply X8. lia.
+    + (* a partial result *)
+      assert (Hf1 : freshp T now s1) by (unfold freshp; rewrite B0; exact Hf).
+      assert (P : phi U T now s1 = phi U T now s) by (unfold phi, unvisited; rewrite B0, C0; reflexivity).
+      assert (M : (msr U s1 < msr U s)%nat).
+      { unfold msr, mu, unvisited. rewrite B0, C0, F0. cbn [length]. lia. }
+      destruct (IH s1 Hi' Hc' Hf1) as [X1 [X2 [X3 [X4 [X5 [X6 [X7 X8]]]]]]].
+      rewrite run_cons_fst. cbn [step]. rewrite En. cbn [fst mono clock].
+      split; [exact X1 | split; [exact X2 | split; [exact X3 | split; [lia | split; [lia | split; [split; [lia | exact X6] | split; [exact X7 |]]]]]]].
+      intros Hlt. apply X8. lia.
+    + (* the terminal action *)
+      assert (Hnil : poll_events f c s1 now = []) by (destruct f; cbn [poll_events]; [reflexivity | rewrite Hd1; reflexivity]).
+      assert (Hev : (ENext now :: match a with ANone => [] | _ => poll_events f c s1 now end) = [ENext now]).
+      { destruct a; try discriminate Ht; rewrite Hnil; reflexivity. }
+      rewrite Hev. cbn [run step]. rewrite En. cbn [fst mono clock].
+      assert (P : phi U T now s1 = phi U T now s) by (unfold phi, unvisited; rewrite B0, C0; reflexivity).
+      assert (M : msr U s1 = msr U s) by (unfold msr, mu, unvisited; rewrite B0, C0, F0; reflexivity).
+      split; [exact Hi' | split; [exact Hc' | split; [unfold freshp; rewrite B0; exact Hf |]]].
+      split; [lia | split; [lia | split; [split; [lia | exact I] | split; [reflexivity |]]]].
+      intros _. left. exact Hd1.
+Qed.
+
+Lemma fsub_In : forall l' l x, fsub l' l -> In x l' -> In x l.
+Proof. intros l' l x [f Hf] H. subst l'. apply filter_In in H. apply H. Qed.
+
+Lemma fsub_psum : forall T now l' l, fsub l' l -> (psum T now l' <= psum T now l)%nat.
+Proof. intros T now l' l [f Hf]. subst l'. apply psum_filter. Qed.
+
+Lemma fsub_nil : forall l', fsub l' [] -> l' = [].
+Proof. intros l' [f Hf]. exact Hf. Qed.
+
+Lemma fail_removes : forall c U es s p,
+  Inv c s -> cands_in U s -> Forall (ev_in U) es -> Forall quiet es -> done s = false ->
+  In (EFail p) es -> ~ In p (map fst (pend (fst (run c s es)))).
+Proof.
+  intros c U es. induction es as [| e t IH]; intros s p Hi Hc He Hq Hd Hin; [destruct Hin |].
+  inversion He as [| e1 t1 He1 He2]; subst. inversion Hq as [| e2 t2 Hq1 Hq2]; subst.
+  destruct (quiet_step c U s e Hi Hc He1 Hq1) as [A [B [C [_ [_ F]]]]].
+  rewrite run_cons_fst. destruct Hin as [Hin | Hin].
+  - subst e. cbn [step fst] in *.
+    destruct (quiet_run c U t (on_failure c s p) A B He2 Hq2) as [_ [_ [C' _]]].
+    intros X. apply in_map_iff in X. destruct X as [x [Ex Hx]]. apply (fsub_In _ _ _ C') in Hx.
+    destruct (effective s p) eqn:Hf.
+    + destruct (on_failure_eff c s p Hf) as [A1 _]. rewrite A1 in Hx. apply premove_In in Hx. destruct Hx as [_ Hx]. congruence.
+    + rewrite on_failure_noeff in Hx by exact Hf. unfold effective in Hf. rewrite Hd in Hf. cbn [negb andb] in Hf.
+      apply pmem_false in Hf. apply Hf. apply in_map_iff. exists x. split; assumption.
+  - apply (IH (fst (step c s e)) p A B He2 Hq2); [congruence | exact Hin].
+Qed.
+
+Lemma mono_weaken : forall l n n', n <= n' -> mono n' l -> mono n l.
+Proof.
+  induction l as [| e t IH]; intros n n' H Hm; [exact I |].
+  destruct e; cbn [mono] in *; [destruct Hm as [A B]; split; [lia | exact B] | | |]; eapply IH; eassumption.
+Qed.
+
+Lemma clock_start_le : forall l n n', n <= n' -> clock n l <= clock n' l.
+Proof.
+  induction l as [| e t IH]; intros n n' H; [exact H |].
+  destruct e; cbn [clock]; [lia | | |]; apply IH; exact H.
+Qed.
+
+Lemma expire_quiet : forall T now pd U, Forall quiet (expire_events T now pd) /\ Forall (ev_in U) (expire_events T now pd).
+Proof.
+  intros T now pd U. unfold expire_events. split; apply Forall_forall; intros e He;
+    apply in_map_iff in He; destruct He as [x [Ex _]]; subst e; exact I.
+Qed.
+
+Lemma net_quiet : forall U E now s, net_in U E ->
+  Forall quiet (map net_event (t_net E now s)) /\ Forall (ev_in U) (map net_event (t_net E now s)).
+Proof.
+  intros U E now s Hn. split; apply Forall_forall; intros e He; apply in_map_iff in He;
+    destruct He as [x [Ex Hx]]; subst e; unfold net_event; destruct (snd x) as [r |] eqn:Er; cbn; try exact I.
+  intros q Hq. apply (Hn now s x r Hx Er q Hq).
+Qed.
+
+Lemma tdrive_spec : forall c U E T pf,
+  1 <= c_alpha c -> net_in U E ->
+  forall ticks s now,
+  Inv c s -> cands_in U s -> freshp T now s -> (msr U s < pf)%nat -> (phi U T now s < ticks)%nat ->
+  let es := tdrive ticks pf c E T now s in
+  done (fst (run c s es)) = true /\ mono now es /\
+  (N.to_nat (clock now es) <= N.to_nat now + phi U T now s)%nat.
+Proof.
+  intros c U E T pf Ha Hn ticks. induction ticks as [| k IH]; intros s now Hi Hc Hf Hm Hp; [lia |].
+  cbn [tdrive]. destruct (done s) eqn:Hd.
+  { cbn [run fst mono clock]. split; [exact Hd | split; [exact I | lia]]. }
+  destruct (poll_spec c U T now Ha pf s Hi Hc Hf) as [Hi1 [Hc1 [Hf1 [P1 [M1 [Mo1 [Ck1 Alive]]]]]]].
+  set (ep := poll_events pf c s now) in *. set (s1 := fst (run c s ep)) in *.
+  destruct (Alive Hm) as [Hd1 | [Hd1 Hne1]].
+  { rewrite Hd1. fold s1. split; [exact Hd1 | split; [exact Mo1 | rewrite Ck1; lia]]. }
+  rewrite Hd1.
+  set (en := map net_event (t_net E now s1)). destruct (net_quiet U E now s1 Hn) as [Qn En]. fold en in Qn, En.
+  destruct (quiet_run c U en s1 Hi1 Hc1 En Qn) as [Hi2 [Hc2 [S2 [U2 [M2 D2]]]]].
+  set (s2 := fst (run c s1 en)) in *.
+  set (ex := expire_events T (now + 1) (pend s2)). destruct (expire_quiet T (now + 1) (pend s2) U) as [Qx Ex]. fold ex in Qx, Ex.
+  destruct (quiet_run c U ex s2 Hi2 Hc2 Ex Qx) as [Hi3 [Hc3 [S3 [U3 [M3 D3]]]]].
+  set (s3 := fst (run c s2 ex)) in *.
+  assert (Hf2 : freshp T now s2) by (intros x Hx; apply Hf1; apply (fsub_In _ _ _ S2); exact Hx).
+  assert (Hd2 : done s2 = false) by congruence.
+  assert (Hf3 : freshp T (now + 1) s3).
+  { intros x Hx. pose proof (fsub_In _ _ _ S3 Hx) as Hx2. destruct (Hf2 x Hx2) as [A B]. split; [lia |].
+    destruct (N.ltb_spec T (now + 1 - snd x)) as [L | L]; [exfalso | exact L].
+    assert (Hin : In (EFail (fst x)) ex).
+    { unfold ex, expire_events. apply in_map_iff. exists x. split; [reflexivity |]. apply filter_In. split; [exact Hx2 |].
+      unfold expired. apply N.ltb_lt. exact L. }
+    apply (fail_removes c U ex s2 (fst x) Hi2 Hc2 Ex Qx Hd2 Hin). fold s3. apply in_map_iff. exists x. split; [reflexivity | exact Hx]. }
+  assert (P3 : (phi U T (now + 1) s3 < phi U T now s1)%nat).
+  { unfold phi. rewrite U3, U2.
+    pose proof (fsub_psum T (now + 1) _ _ S3) as X1.
+    pose proof (psum_age T now (pend s2) Hf2) as X2.
+    pose proof (fsub_psum T now _ _ S2) as X3.
+    destruct (pend s2) as [| y t2] eqn:E2.
+    - apply fsub_nil in S3. rewrite S3. cbn [psum].
+      pose proof (psum_pos T now (pend s1) Hf1 Hne1). lia.
+    - cbn [length] in X2. lia. }
+  assert (Hm3 : (msr U s3 < pf)%nat) by lia.
+  assert (Hp3 : (phi U T (now + 1) s3 < k)%nat) by lia.
+  destruct (IH s3 (now + 1) Hi3 Hc3 Hf3 Hm3 Hp3) as [R1 [R2 R3]].
+  set (rest := tdrive k pf c E T (now + 1) s3) in *.
+  destruct (quiet_mono en now Qn) as [Mn Cn]. destruct (quiet_mono ex now Qx) as [Mx Cx].
+  split; [| split].
+  - rewrite run_app_fst. fold s1. rewrite run_app_fst. fold s2. rewrite run_app_fst. fold s3. exact R1.
+  - apply mono_app; [exact Mo1 |]. rewrite Ck1. apply mono_app; [exact Mn |]. rewrite Cn.
+    apply mono_app; [exact Mx |]. rewrite Cx. apply (mono_weaken rest now (now + 1)); [lia | exact R2].
+  - rewrite clock_app, Ck1, clock_app, Cn, clock_app, Cx.
+    pose proof (clock_start_le rest now (now + 1)). lia.
+Qed.
+
+(* Termination without any assumption on the peers: whatever the network does (answer, lie, fail,
+   stay silent for ever), a lookup over a universe of n peers whose requests are failed after T
+   time units is over after at most (T+1)*n time units, with exactly one terminal action *)
+Lemma timed_termination : forall c U E T seeds ticks pf,
+  1 <= c_alpha c -> ~ In (c_local c) seeds -> (forall p, In p seeds -> In p U) -> net_in U E ->
+  (2 * length U + 1 <= pf)%nat -> ((N.to_nat T + 1) * length U + 1 <= ticks)%nat ->
+  let es := tdrive ticks pf c E T 0 (init c seeds) in
+  done (fst (run c (init c seeds) es)) = true /\
+  length (terminals (snd (run c (init c seeds) es))) = 1%nat /\
+  mono 0 es /\
+  (N.to_nat (clock 0 es) <= (N.to_nat T + 1) * length U)%nat.
+Proof.
+  intros c U E T seeds ticks pf Ha Hl Hs Hn Hpf Hticks es.
+  pose proof (mu_init c U seeds) as M.
+  assert (Hu : (unvisited U (init c seeds) <= length U)%nat) by (unfold unvisited; apply filter_len_le).
+  assert (P0 : (phi U T 0 (init c seeds) <= (N.to_nat T + 1) * length U)%nat).
+  { unfold phi. assert (pend (init c seeds) = []) as -> by reflexivity. cbn [psum]. nia. }
+  assert (M0 : (msr U (init c seeds) <= 2 * length U)%nat).
+  { unfold msr. assert (recq (init c seeds) = []) as -> by reflexivity. cbn [length]. lia. }
+  destruct (tdrive_spec c U E T pf Ha Hn ticks (init c seeds) 0 (init_inv c seeds Hl) (init_cands_in c U seeds Hs)) as [A [B C]].
+  - intros x [].
+  - lia.
+  - lia.
+  - fold es in A, B, C. split; [exact A | split; [apply (proj2 (one_terminal c seeds es)); exact A | split; [exact B | lia]]].
+Qed.
+
+(* ------------------------------------------------------------------ a request is resolved once; late answers *)
+
+Lemma queried_grows : forall c es s p, In p (queried s) -> In p (queried (fst (run c s es))).
+Proof.
+  intros c es. induction es as [| e t IH]; intros s p H; [exact H |].
+  rewrite run_cons_fst. apply IH. destruct e as [now | q r | q | q]; cbn [step fst].
+  - pose proof (next_action_shape c s now) as Hs. destruct (next_action c s now) as [s' a]. cbn [fst snd] in *.
+    destruct Hs as [[_ [_ [C _]]] _ | d p' t' _ _ _ _ C | p' r' _ _ _ _ _ C | a _ _ _ [_ [_ [C _]]]]; rewrite C; exact H.
+  - destruct (effective s q) eqn:He; [| rewrite on_response_noeff; assumption].
+    destruct (on_response_eff c s q r He) as [_ [B _]]. rewrite B. apply set_add_In. right. exact H.
+  - destruct (effective s q) eqn:He; [| rewrite on_failure_noeff; assumption].
+    destruct (on_failure_eff c s q He) as [_ [B _]]. rewrite B. apply set_add_In. right. exact H.
+  - exact H.
+Qed.
+
+Lemma run_inv : forall c es s, Inv c s -> Inv c (fst (run c s es)).
+Proof.
+  intros c es. induction es as [| e t IH]; intros s H; [exact H |].
+  rewrite run_cons_fst. apply IH. apply step_inv. exact H.
+Qed.
+
+(* Once a request has been answered or failed (by the peer, by the executor's timeout, by a
+   disconnect), nothing that arrives for that peer later has any effect: a late answer is ignored.
+   (An answer that arrives after the engine's own peer timeout but before a failure is an ordinary
+   answer: on_response does not look at the clock.) *)
+Lemma resolved_once : forall c s p e es r,
+  Inv c s -> effective s p = true -> (e = EFail p \/ exists r0, e = EResp p r0) ->
+  let s1 := fst (run c (fst (step c s e)) es) in
+  effective s1 p = false /\ on_response c s1 p r = s1 /\ on_failure c s1 p = s1.
+Proof.
+  intros c s p e es r Hi He Hev s1.
+  assert (Hq : In p (queried (fst (step c s e)))).
+  { destruct Hev as [-> | [r0 ->]]; cbn [step fst].
+    - destruct (on_failure_eff c s p He) as [_ [B _]]. rewrite B. apply set_add_In. left. reflexivity.
+    - destruct (on_response_eff c s p r0 He) as [_ [B _]]. rewrite B. apply set_add_In. left. reflexivity. }
+  pose proof (queried_grows c es _ p Hq) as Hq1. fold s1 in Hq1.
+  pose proof (run_inv c es _ (step_inv c s e Hi)) as Hi1. fold s1 in Hi1.
+  assert (Hn : effective s1 p = false).
+  { destruct (effective s1 p) eqn:X; [exfalso | reflexivity].
+    destruct (i_pq _ _ _ _ Hi1 p (effective_pend s1 p X)) as [Y _]. contradiction. }
+  split; [exact Hn | split; [apply on_response_noeff; exact Hn | apply on_failure_noeff; exact Hn]].
 Qed.
